@@ -29,21 +29,21 @@ Definition expected_connect_initial (c : config) (selected : N) : pdu :=
                   (mkBlocks (expected_core c selected) (11, 0) (Some [])).
 
 Definition expected_info (swapped : bool) (c : config) (i : server_ids) : pdu :=
-  PClientInfo (i_uid i) IO_CHANNEL
+  PClientInfo (i_uid i) (i_io i)
     (mkInfo 0 (INFO_FLAGS + (if c_autologon c then INFO_AUTOLOGON else 0)) (c_domain c) (c_user c) (c_password c) [] []
             (if is_rdp_version_5_plus swapped (i_version i) then Some (mkExt 2 [] [] 0 0) else None)).
 
 Definition expected_confirm (c : config) (i : server_ids) : pdu :=
-  PConfirmActive (i_uid i) IO_CHANNEL (i_uid i)
+  PConfirmActive (i_uid i) (i_io i) (i_uid i)
     (mkConfirm (i_share i) (utf8 (c_name c)) [1; 2; 3; 4; 8; 12; 13; 15; 16; 17; 20; 26]
                (Some 1045) (Some (24, c_width c, c_height c)) (Some (21, c_layout c, 4, 0, 12))).
 
 Definition expected_finalize (i : server_ids) : list pdu :=
   let u := i_uid i in let s := i_share i in
-  [ PSynchronize u IO_CHANNEL u s IO_CHANNEL;
-    PControl u IO_CHANNEL u s 4 0 0;
-    PControl u IO_CHANNEL u s 1 0 0;
-    PFontList u IO_CHANNEL u s ].
+  [ PSynchronize u (i_io i) u s SERVER_CHANNEL;
+    PControl u (i_io i) u s 4 0 0;
+    PControl u (i_io i) u s 1 0 0;
+    PFontList u (i_io i) u s ].
 
 (* MS-RDPBCGR 2.2.8.1.1.3.1.1.3 / .1.1.1: what a submitted event must carry *)
 Definition expected_event (e : input_ev) : in_event :=
@@ -54,12 +54,12 @@ Definition expected_event (e : input_ev) : in_event :=
   | EvBitmap => IKey 0 0
   end.
 Definition expected_input (i : server_ids) (e : input_ev) : pdu :=
-  PInput (i_uid i) IO_CHANNEL (i_uid i) (i_share i) [expected_event e].
+  PInput (i_uid i) (i_io i) (i_uid i) (i_share i) [expected_event e].
 
 Definition expected_session (swapped : bool) (c : config) (i : server_ids) (evs : list input_ev) : list pdu :=
   [ expected_connect_initial c (i_selected i);
     PErectDomain 0 0; PAttachUser;
-    PChannelJoin (i_uid i) IO_CHANNEL; PChannelJoin (i_uid i) (i_uid i);
+    PChannelJoin (i_uid i) (i_io i); PChannelJoin (i_uid i) (i_uid i);
     expected_info swapped c i;
     expected_confirm c i ]
   ++ expected_finalize i
@@ -89,6 +89,8 @@ Definition valid_cfg (swapped : bool) (c : config) (i : server_ids) : Prop :=
   i_selected i < 4294967296 /\ i_share i < 4294967296 /\
   (* a user id as read_integer_16(1001) returns it *)
   1001 <= i_uid i <= 65535 /\
+  (* the I/O channel id as the u16 field of the server network data carries it *)
+  i_io i < 65536 /\
   (* what one PER length determinant can carry *)
   info_size swapped c i <= PER_MAX /\ confirm_size c <= PER_MAX.
 
@@ -267,21 +269,21 @@ Proof.
   do 7 (destruct ph as [ph|ph|]; try reflexivity). exfalso. apply Hh. reflexivity.
 Qed.
 
-Lemma sp_domain_sdr uid m :
-  1001 <= uid <= 65535 -> nlen m <= PER_MAX ->
-  sp_domain_pdu ([100] ++ be16 (uid - 1001) ++ be16 IO_CHANNEL ++ [112] ++ per_write_length (as_u16 (nlen m)) ++ m)
-  = sp_user_data uid IO_CHANNEL m.
+Lemma sp_domain_sdr uid io m :
+  1001 <= uid <= 65535 -> io < 65536 -> nlen m <= PER_MAX ->
+  sp_domain_pdu ([100] ++ be16 (uid - 1001) ++ be16 io ++ [112] ++ per_write_length (as_u16 (nlen m)) ++ m)
+  = sp_user_data uid io m.
 Proof.
-  intros Hu Hm. cbn [app].
-  change (sp_domain_pdu (100 :: be16 (uid - 1001) ++ be16 IO_CHANNEL ++ 112 :: per_write_length (as_u16 (nlen m)) ++ m))
+  intros Hu Hio Hm. cbn [app].
+  change (sp_domain_pdu (100 :: be16 (uid - 1001) ++ be16 io ++ 112 :: per_write_length (as_u16 (nlen m)) ++ m))
     with ((guard true ;;; i <- be16p ;; guard (i + 1001 <=? 65535) ;;; ch <- be16p ;;
            ps <- u8 ;; guard ((N.land ps 48 =? 48) && (N.land ps 15 =? 0)) ;;;
            n <- per_length ;; r <- remaining ;; guard (n =? r) ;;; sp_user_data (i + 1001) ch)
-          (be16 (uid - 1001) ++ be16 IO_CHANNEL ++ 112 :: per_write_length (as_u16 (nlen m)) ++ m)).
+          (be16 (uid - 1001) ++ be16 io ++ 112 :: per_write_length (as_u16 (nlen m)) ++ m)).
   pguard.
-  pstep (be16p_app (uid - 1001) (be16 IO_CHANNEL ++ 112 :: per_write_length (as_u16 (nlen m)) ++ m) ltac:(lia)).
+  pstep (be16p_app (uid - 1001) (be16 io ++ 112 :: per_write_length (as_u16 (nlen m)) ++ m) ltac:(lia)).
   pguard.
-  pstep (be16p_app IO_CHANNEL (112 :: per_write_length (as_u16 (nlen m)) ++ m) ltac:(unfold IO_CHANNEL; lia)).
+  pstep (be16p_app io (112 :: per_write_length (as_u16 (nlen m)) ++ m) ltac:(lia)).
   rewrite (bind_step _ _ (112 :: _) 112 _ eq_refl).
   pguard.
   pstep (per_length_write (nlen m) m Hm).
@@ -298,20 +300,20 @@ Proof. unfold per_write_length. destruct (127 <? n); [rewrite nlen_be16; lia|]. 
 
 (* a frame built by Global.mcs_frame around [b], whose user data parses to [d] *)
 Lemma parse_mcs_frame c i b d :
-  1001 <= i_uid i <= 65535 -> nlen b <= PER_MAX ->
-  sp_user_data (i_uid i) IO_CHANNEL b = Some (d, []) ->
+  1001 <= i_uid i <= 65535 -> i_io i < 65536 -> nlen b <= PER_MAX ->
+  sp_user_data (i_uid i) (i_io i) b = Some (d, []) ->
   strict_parse (mcs_frame (session_of c i) b) = Some d.
 Proof.
-  intros Hu Hb Hd. unfold mcs_frame. cbn [user_id channel_id session_of].
-  change ([2; 240; 128] ++ [100] ++ be16 (i_uid i - 1001) ++ be16 IO_CHANNEL ++ [112] ++ per_write_length (as_u16 (nlen b)) ++ b)
-    with (X224_DATA ++ ([100] ++ be16 (i_uid i - 1001) ++ be16 IO_CHANNEL ++ [112] ++ per_write_length (as_u16 (nlen b)) ++ b)).
-  assert (Hlen : nlen ([100] ++ be16 (i_uid i - 1001) ++ be16 IO_CHANNEL ++ [112] ++ per_write_length (as_u16 (nlen b)) ++ b) + 7 < 65536).
+  intros Hu Hio Hb Hd. unfold mcs_frame. cbn [user_id channel_id session_of].
+  change ([2; 240; 128] ++ [100] ++ be16 (i_uid i - 1001) ++ be16 (i_io i) ++ [112] ++ per_write_length (as_u16 (nlen b)) ++ b)
+    with (X224_DATA ++ ([100] ++ be16 (i_uid i - 1001) ++ be16 (i_io i) ++ [112] ++ per_write_length (as_u16 (nlen b)) ++ b)).
+  assert (Hlen : nlen ([100] ++ be16 (i_uid i - 1001) ++ be16 (i_io i) ++ [112] ++ per_write_length (as_u16 (nlen b)) ++ b) + 7 < 65536).
   { rewrite !nlen_app, !nlen_be16. pose proof (nlen_pwl (as_u16 (nlen b))). unfold PER_MAX in Hb.
     change (nlen [100]) with 1. change (nlen [112]) with 1. lia. }
   rewrite strict_parse_x224 by exact Hlen.
   unfold exactly.
-  replace (sp_mcs ([100] ++ be16 (i_uid i - 1001) ++ be16 IO_CHANNEL ++ [112] ++ per_write_length (as_u16 (nlen b)) ++ b))
-    with (sp_domain_pdu ([100] ++ be16 (i_uid i - 1001) ++ be16 IO_CHANNEL ++ [112] ++ per_write_length (as_u16 (nlen b)) ++ b))
+  replace (sp_mcs ([100] ++ be16 (i_uid i - 1001) ++ be16 (i_io i) ++ [112] ++ per_write_length (as_u16 (nlen b)) ++ b))
+    with (sp_domain_pdu ([100] ++ be16 (i_uid i - 1001) ++ be16 (i_io i) ++ [112] ++ per_write_length (as_u16 (nlen b)) ++ b))
     by (symmetry; apply sp_mcs_domain; discriminate).
   rewrite sp_domain_sdr by assumption. rewrite Hd. reflexivity.
 Qed.
@@ -373,8 +375,8 @@ Lemma nlen_data_pdu_bytes total t2 u0 u1 s0 s1 s2 s3 body :
 Proof. unfold data_pdu_bytes. rewrite nlen_app. reflexivity. Qed.
 
 Lemma user_data_sync ini ch u0 u1 s0 s1 s2 s3 :
-  sp_user_data ini ch (data_pdu_bytes 22 31 u0 u1 s0 s1 s2 s3 [1; 0; 235; 3])
-  = Some (PSynchronize ini ch (of_le16 u0 u1) (of_le32 s0 s1 s2 s3) 1003, []).
+  sp_user_data ini ch (data_pdu_bytes 22 31 u0 u1 s0 s1 s2 s3 [1; 0; 234; 3])
+  = Some (PSynchronize ini ch (of_le16 u0 u1) (of_le32 s0 s1 s2 s3) 1002, []).
 Proof. vm_compute. reflexivity. Qed.
 
 Lemma user_data_control ini ch u0 u1 s0 s1 s2 s3 a :
@@ -402,6 +404,7 @@ Section DataPdus.
 Variable p : prof.
 Variables (c : config) (i : server_ids).
 Hypothesis Huid : 1001 <= i_uid i <= 65535.
+Hypothesis Hio : i_io i < 65536.
 Hypothesis Hshare : i_share i < 4294967296.
 
 Let s := session_of c i.
@@ -411,7 +414,7 @@ Let sh := i_share i.
 Definition data_pdu_of (total t2 : N) (body : bytes) : bytes :=
   data_pdu_bytes total t2 (u16_lo uid) (u16_hi uid) (sh mod 256) ((sh / 256) mod 256) ((sh / 65536) mod 256) ((sh / 16777216) mod 256) body.
 
-Lemma write_sync : write_data_pdu p s PDUTYPE2_SYNCHRONIZE (ts_synchronize_pdu (channel_id s)) = Ok (mcs_frame s (data_pdu_of 22 31 [1; 0; 235; 3])).
+Lemma write_sync : write_data_pdu p s PDUTYPE2_SYNCHRONIZE (ts_synchronize_pdu SERVER_CHANNEL) = Ok (mcs_frame s (data_pdu_of 22 31 [1; 0; 234; 3])).
 Proof. reflexivity. Qed.
 Lemma write_coop :
   write_data_pdu p s PDUTYPE2_CONTROL (ts_control_pdu CTRLACTION_COOPERATE) = Ok (mcs_frame s (data_pdu_of 26 20 [4; 0; 0; 0; 0; 0; 0; 0])).
@@ -429,7 +432,7 @@ Proof. apply le32_of. exact Hshare. Qed.
 
 Lemma data_frame_parses total t2 body d :
   nlen body <= 100 ->
-  sp_user_data uid IO_CHANNEL (data_pdu_of total t2 body) = Some (d, []) ->
+  sp_user_data uid (i_io i) (data_pdu_of total t2 body) = Some (d, []) ->
   exists f, checked (Ok (mcs_frame s (data_pdu_of total t2 body))) = Ok f /\ strict_parse f = Some d.
 Proof.
   intros Hb Hd.
@@ -468,7 +471,7 @@ Proof.
       by reflexivity.
     rewrite Hw. cbn [r_out r_wire].
     destruct (data_frame_parses 34 28 ([1; 0; 0; 0; 0; 0; 0; 0; 1; 128] ++ le16 (pointer_flags b down) ++ le16 x ++ le16 y)
-                (PInput uid IO_CHANNEL uid sh [expected_event (EvPointer x y b down)])) as [f [Hc Hp]].
+                (PInput uid (i_io i) uid sh [expected_event (EvPointer x y b down)])) as [f [Hc Hp]].
     + cbn. lia.
     + unfold data_pdu_of, le16. cbn [app]. rewrite user_data_mouse, uid16, share32.
       rewrite !le16_of by (try assumption; destruct b, down; cbn; lia).
@@ -480,7 +483,7 @@ Proof.
       by reflexivity.
     rewrite Hw. cbn [r_out r_wire].
     destruct (data_frame_parses 34 28 ([1; 0; 0; 0; 0; 0; 0; 0; 4; 0] ++ le16 (if down then 0 else 32768) ++ le16 code ++ [0; 0])
-                (PInput uid IO_CHANNEL uid sh [expected_event (EvKey code down)])) as [f [Hc Hp]].
+                (PInput uid (i_io i) uid sh [expected_event (EvKey code down)])) as [f [Hc Hp]].
     + cbn. lia.
     + unfold data_pdu_of, le16. cbn [app]. rewrite user_data_key, uid16, share32.
       rewrite !le16_of by (try assumption; destruct down; cbn; lia).
@@ -698,7 +701,7 @@ Qed.
 
 (* ================================================================== client info *)
 Lemma mcs_send_frame c i m :
-  nlen m <= PER_MAX -> mcs_send (i_uid i) m = Ok (mcs_frame (session_of c i) m).
+  nlen m <= PER_MAX -> mcs_send (i_uid i) (i_io i) m = Ok (mcs_frame (session_of c i) m).
 Proof.
   intros Hm. unfold mcs_send. rewrite x224_frame_ok; [reflexivity|].
   rewrite !nlen_app, !nlen_be16. pose proof (nlen_pwl (as_u16 (nlen m))). unfold PER_MAX in Hm.
@@ -808,7 +811,7 @@ Lemma emit_client_info_parses p swapped c i :
   valid_cfg swapped c i ->
   exists f, emit_client_info p swapped c i = Ok f /\ strict_parse f = Some (expected_info swapped c i).
 Proof.
-  intros [_ [Hd [Hu [Hp [_ [_ [_ [_ [_ [_ [Huid [Hinfo _]]]]]]]]]]]].
+  intros [_ [Hd [Hu [Hp [_ [_ [_ [_ [_ [_ [Huid [Hio [Hinfo _]]]]]]]]]]]]].
   unfold emit_client_info, expected_info, wr. rewrite info_write. cbn [obind].
   set (ext := is_rdp_version_5_plus swapped (i_version i)) in *.
   unfold info_size, PER_MAX in Hinfo. fold ext in Hinfo.
@@ -821,7 +824,7 @@ Proof.
                                (utf16le (c_domain c)) (utf16le (c_user c)) (utf16le (c_password c)) ext) <= PER_MAX).
   { rewrite nlen_info_flat, !nlen_utf16le. unfold PER_MAX. destruct ext; lia. }
   rewrite (mcs_send_frame c i _ Hl). eexists. split; [reflexivity|].
-  apply parse_mcs_frame; [exact Huid|exact Hl|].
+  apply parse_mcs_frame; [exact Huid|exact Hio|exact Hl|].
   apply info_flat_parses; assumption.
 Qed.
 
@@ -930,7 +933,7 @@ Lemma emit_confirm_active_parses p swapped c i :
   valid_cfg swapped c i ->
   exists f, emit_confirm_active p c i = Ok f /\ strict_parse f = Some (expected_confirm c i).
 Proof.
-  intros [_ [_ [_ [_ [Hw [Hh [Hl [_ [_ [Hs [Huid [_ Hconf]]]]]]]]]]]].
+  intros [_ [_ [_ [_ [Hw [Hh [Hl [_ [_ [Hs [Huid [Hio [_ Hconf]]]]]]]]]]]]].
   unfold confirm_size, PER_MAX in Hconf.
   unfold emit_confirm_active, expected_confirm. rewrite confirm_write.
   set (capsec := caps_section_explicit _ _ _ _ _ _ _ _).
@@ -940,7 +943,7 @@ Proof.
   { rewrite nlen_confirm_flat by exact Hcl. unfold PER_MAX. lia. }
   rewrite checked_ok by (apply mcs_frame_len; exact Hlen).
   eexists. split; [reflexivity|].
-  apply parse_mcs_frame; [exact Huid|exact Hlen|].
+  apply parse_mcs_frame; [exact Huid|exact Hio|exact Hlen|].
   subst capsec. rewrite confirm_flat_parses by lia.
   rewrite !le16_of by assumption. rewrite le32_of by assumption. reflexivity.
 Qed.
@@ -1022,6 +1025,8 @@ Definition parses_to (o : outcome bytes) (d : pdu) : Prop := exists f, o = Ok f 
 
 Lemma valid_uid swapped c i : valid_cfg swapped c i -> 1001 <= i_uid i <= 65535.
 Proof. intros H. apply H. Qed.
+Lemma valid_io swapped c i : valid_cfg swapped c i -> i_io i < 65536.
+Proof. intros H. apply H. Qed.
 Lemma valid_share swapped c i : valid_cfg swapped c i -> i_share i < 4294967296.
 Proof. intros H. apply H. Qed.
 
@@ -1030,25 +1035,25 @@ Lemma inputs_parse p swapped c i evs :
   Forall2 parses_to (map (emit_input p c i) evs) (map (expected_input i) evs).
 Proof.
   intros Hv He. induction He as [|e evs He Hes IH]; cbn [map]; constructor; auto.
-  apply emit_input_parses; [eapply valid_uid|eapply valid_share|]; eauto.
+  apply emit_input_parses; [eapply valid_uid|eapply valid_io|eapply valid_share|]; eauto.
 Qed.
 
 Theorem all_parse p swapped c i evs :
   valid_cfg swapped c i -> Forall sendable evs ->
   Forall2 parses_to (emitted p swapped c i evs) (expected swapped c i evs).
 Proof.
-  intros Hv He. pose proof (valid_uid _ _ _ Hv) as Hu.
+  intros Hv He. pose proof (valid_uid _ _ _ Hv) as Hu. pose proof (valid_io _ _ _ Hv) as Hio.
   unfold emitted, expected, emitted_session, expected_session.
   constructor. { apply emit_cr_parses. apply Hv. }
   cbn [app].
   constructor. { eapply emit_connect_initial_parses; eauto. }
   constructor. { apply emit_erect_domain_parses. }
   constructor. { apply emit_attach_user_parses. }
-  constructor. { apply emit_channel_join_parses; [exact Hu|unfold IO_CHANNEL; lia]. }
+  constructor. { apply emit_channel_join_parses; [exact Hu|lia]. }
   constructor. { apply emit_channel_join_parses; [exact Hu|lia]. }
   constructor. { apply emit_client_info_parses; exact Hv. }
   constructor. { eapply emit_confirm_active_parses; eauto. }
-  apply Forall2_app. { apply emit_finalize_parses; [exact Hu|eapply valid_share; eauto]. }
+  apply Forall2_app. { apply emit_finalize_parses; [exact Hu|exact Hio|eapply valid_share; eauto]. }
   apply Forall2_app. { eapply inputs_parse; eauto. }
   constructor; [|constructor]. apply emit_disconnect_parses.
 Qed.
@@ -1104,7 +1109,7 @@ Definition demo_cfg : config :=
   mkCfg 3 false true 1024 768 1036
         [82; 233; 128512; 20013; 45; 99; 108; 105; 101; 110; 116; 45; 110; 97; 109; 101]
         [67; 79; 82; 80] [106; 252; 114; 103; 101; 110; 128512] [112; 97; 223; 119; 246; 114; 100; 19990; 30028; 1114111].
-Definition demo_ids : server_ids := mkIds 1 524289 1007 66538.
+Definition demo_ids : server_ids := mkIds 1 524289 1007 66538 1005.
 Definition demo_events : list input_ev := [EvPointer 4660 65534 BRight true; EvKey 28 false].
 
 Lemma demo_valid : valid_cfg true demo_cfg demo_ids /\ Forall sendable demo_events.
@@ -1199,7 +1204,7 @@ Theorem all_wf p swapped c i evs :
   valid_cfg swapped c i -> Forall sendable evs -> Forall is_wf (emitted p swapped c i evs).
 Proof.
   intros Hv He.
-  pose proof Hv as [Hn [Hd [Hu [Hp [Hw [Hh [Hl [Ho [Hs [Hsh [Huid [Hinfo Hconf]]]]]]]]]]]].
+  pose proof Hv as [Hn [Hd [Hu [Hp [Hw [Hh [Hl [Ho [Hs [Hsh [Huid [Hio [Hinfo Hconf]]]]]]]]]]]]].
   assert (Hdata : forall total t2 body, total < 256 -> t2 < 256 -> wf_bytes body -> nlen body <= 100 ->
                     is_wf (checked (Ok (mcs_frame (session_of c i) (data_pdu_of i total t2 body))))).
   { intros total t2 body Ht H2 Hb Hlen. eexists. split.
@@ -1228,7 +1233,7 @@ Proof.
     rewrite x224_frame_ok by (rewrite !nlen_app, !nlen_be16; change (nlen [56]) with 1; lia).
     eexists. split; [reflexivity|]. apply wf_tpkt_frame.
     repeat (first [apply wf_app2 | apply wf_be16 | (repeat constructor; lia)]). }
-  constructor. { apply Hcj. unfold IO_CHANNEL. lia. }
+  constructor. { apply Hcj. exact Hio. }
   constructor. { apply Hcj. lia. }
   constructor.
   { (* client info *)
